@@ -586,6 +586,13 @@ class Gen:
             want = ['int' if t == 'int' else t for t in types]
             right, _, _ = self.select(depth - 1, top=False, types=want, allow_order=False)
             sql = f'{left} {op} {right}'
+            if self.chance(1, 3):
+                # a chain: set operations group from the left, whatever the operators
+                op2 = self.pick(['UNION', 'UNION ALL', 'INTERSECT', 'EXCEPT'])
+                third, _, _ = self.select(depth - 1, top=False, types=want, allow_order=False)
+                sql += f' {op2} {third}'
+                self.tags.add('setop:chain')
+                self.tags.add('setop:' + op2)
             meta = {'order_cols': [], 'total_order': False, 'limit': False}
             if cfg.order and cfg.column_aliases and self.chance(1, 3):
                 # ORDER BY [LIMIT] after a set operation belongs to the whole compound; ordering by every output
